@@ -540,7 +540,13 @@ class Gen:
             return None
         a = self.ex(v)
         if a.dtype.kind == "f":
-            to = self.rng.choice([ir.DataType.INT64, ir.DataType.INT32, ir.DataType.DOUBLE, ir.DataType.FLOAT])
+            # truncation is discontinuous at the integers: a computed 0.99999994 (reference kernel) vs 1.0 (ORT) would flip the result
+            def off_grid(x):
+                x = x.astype(np.float64)
+                return bool(np.all((np.abs(x) < 0.99) | (np.abs(x - np.round(x)) > 1e-2)))
+            int_ok = self.meta.get(id(v), {}).get("kind") == "input" or all(off_grid(e) for e in self.exs(v))
+            to = self.rng.choice([ir.DataType.INT64, ir.DataType.INT32, ir.DataType.DOUBLE, ir.DataType.FLOAT] if int_ok else
+                                 [ir.DataType.DOUBLE, ir.DataType.FLOAT])
         elif a.dtype.kind == "b":
             to = self.rng.choice([ir.DataType.FLOAT, ir.DataType.INT64])
         else:
